@@ -56,3 +56,18 @@ Definition check_case (c : cfg) (L : lim) (ctx : Z) (E : list info) (warn : bool
 
 Definition z3_eqb (a b : Z * Z * Z) : bool :=
   let '(a1, a2, a3) := a in let '(b1, b2, b3) := b in (a1 =? b1) && (a2 =? b2) && (a3 =? b3).
+
+(* ---- watchers: (has_new_errors, ids of the filtered errors) per watcher, top of the stack first *)
+Definition wobs (ws : list watcher) : list (bool * list Z) := map (fun w => (wnew w, map iid (wfiltered w))) ws.
+Definition wobs_eqb (a b : list (bool * list Z)) : bool :=
+  list_eqb (fun x y => Bool.eqb (fst x) (fst y) && list_eqb Z.eqb (snd x) (snd y)) a b.
+Definition check_watch (c : cfg) (ws : list watcher) (E : list info) (o_out : list info) (o_w : list (bool * list Z)) : list bool :=
+  let s := run_w attached_notes_reenter_watchers c ws E in
+  [ list_eqb info_eqb (out (wcore s)) o_out; wobs_eqb (wobs (wstack s)) o_w ].
+
+(* ---- create_errors *)
+Definition et_eqb (a b : etuple) : bool :=
+  opt_eqb String.eqb (tfile a) (tfile b) && (tline a =? tline b) && (tcol a =? tcol b) && (tendline a =? tendline b)
+  && (tendcol a =? tendcol b) && Bool.eqb (terror a) (terror b) && String.eqb (tmsg a) (tmsg b) && opt_eqb String.eqb (tcode a) (tcode b).
+Definition me_eqb (a b : mypy_error) : bool := et_eqb (mtuple a) (mtuple b) && list_eqb String.eqb (mhints a) (mhints b).
+Definition check_create_errors (ts : list etuple) (o : list mypy_error) : bool := list_eqb me_eqb (create_errors ts) o.
